@@ -98,6 +98,8 @@ fn auth_plan(thorough: bool) -> Plan {
         if cfg.monitors.len() == 2 {
             a.push(exec(&admin, upd(None, None, Some(vec![p20("mon2")])), vec![]));
             a.push(exec(&admin, upd(None, None, Some(vec![])), vec![]));
+            // a large on-call team
+            a.push(exec(&admin, upd(None, None, Some(monitors_of(&K::k5(3)))), vec![]));
         }
         let im = instantiate_msg(&kk);
         if cfg.native_chain_config.staker_address.as_str() == n20(&kk, "staker") {
@@ -169,7 +171,7 @@ fn auth_plan(thorough: bool) -> Plan {
 // ------------------------------------------------------------------------------------------ C10
 fn breaker_plans(thorough: bool) -> Vec<Plan> {
     let mut out = vec![];
-    for k in [K::k0(), K::k5(1), K::k5(2), K::k1()] {
+    for k in [K::k0(), K::k5(1), K::k5(3), K::k5(2), K::k1()] {
         if (k.name == "K1" || k.name == "K5-2") && !thorough {
             continue;
         }
